@@ -892,6 +892,15 @@ def bi_dict_get(st, args, kw):
     return Val(d.t.args[1], z3.Select(mp, st.coerce(k, d.t.args[0]).z))
 
 
+def bi_dict_index(st, args, kw):
+    """dict_index(d, k): position of key k in the (insertion-ordered) key sequence of d"""
+    d, k = args
+    kt = d.t.args[0]
+    keys, mp, has = st.dict_parts(d.z, *d.t.args)
+    idx = z3.Function('$didx_' + T.sort_name(T.sort_of(kt)), z3.ArraySort(I, T.sort_of(kt)), T.sort_of(kt), I)
+    return E.mk_int(idx(keys.arr, st.coerce(k, kt).z))
+
+
 def bi_dict_keys(st, args, kw):
     d = args[0]
     keys, mp, has = st.dict_parts(d.z, *d.t.args)
@@ -909,7 +918,7 @@ def bi_dict(st, args, kw):
 
 _BUILTINS = {
     'mkseq': bi_mkseq, 'trig': bi_trig, 'same': bi_same, 'is_list': bi_is_list, 'store': bi_store, 'dict_has': bi_dict_has,
-    'dict_get': bi_dict_get, 'dict_keys': bi_dict_keys, 'dict': bi_dict,
+    'dict_get': bi_dict_get, 'dict_keys': bi_dict_keys, 'dict': bi_dict, 'dict_index': bi_dict_index,
     'len': bi_len, 'set': bi_set, 'list': bi_list, 'tuple': bi_tuple, 'min': bi_min, 'max': bi_max,
     'seq': bi_seq, 'setv': bi_setv, 'set_of': bi_set_of, 'sorted_by': bi_sorted_by,
     'distinct_by': bi_distinct_by, 'fresh': bi_fresh, 'is_fresh': bi_fresh, 'ite': bi_ite,
